@@ -134,14 +134,11 @@ theorem frame_roundtrip (n : Nlri) (c : Cfg) (h : n.ok c) (rest : Bytes)
     · by_cases hs : c.safi = 72
       · have : (c.safi == 72) = true := by simp [hs]
         rw [this]
-        simp only [hs, hk, and_self, if_true]
         exact split_bgpls_vpn_known code v rest h2 h1 hk (h3 hs)
       · have : (c.safi == 72) = false := by simp [hs]
         rw [this]
-        simp only [hs, false_and, if_false]
         exact split_bgpls_known code v rest h2 h1 hk
     · have hk' : bgplsCodes.contains code = false := by simpa using hk
-      simp only [hk', and_false, Bool.false_eq_true, if_false]
       exact split_bgpls_plain code v rest h2 h1 hk' _ (by intro e; exact h3 (by simpa using e))
   | flow v =>
     simp only [Nlri.kind, split, Nlri.frame, Nlri.stored]
@@ -171,7 +168,7 @@ theorem split_consumes_prefix (k : Framing.Kind) (c : Cfg) (d : Bytes) (cut : Cu
 
 /-- **`packed_first_roundtrip`: `pack (unpack b) = b`** for every framing kind, for every `b` the
     decoder accepts as exactly one NLRI and that is in canonical form (`Canonical`: shortest
-    FlowSpec length form, VPLS length 17, RTC type bits clear, not a BGP-LS VPN NLRI of a known type). -/
+    FlowSpec length form, VPLS length 17, RTC type bits clear). -/
 theorem packed_first_roundtrip (k : Framing.Kind) (c : Cfg) (b : Bytes) (cut : Cut) (h : split k c b = some cut)
     (hr : cut.rest = []) (hc : Canonical k c b) : pack k cut.stored = some b :=
   pack_split k c b cut h hr hc
@@ -203,11 +200,29 @@ theorem vpls_second_nlri_refused (v rest : Bytes) (hv : v.length = 17) (hr : res
     split .vpls ⟨25, 65, false⟩ (be16 v.length ++ v ++ rest) = none :=
   split_vpls_followed v rest hv hr
 
-/-- **FINDING (VPLS): a longer VPLS NLRI is accepted, but what is kept cannot be decoded again**:
-    the length field says 18, the object keeps 17 bytes after it. -/
-theorem vpls_long_not_reencodable :
-    ∃ b cut, split .vpls ⟨25, 65, false⟩ b = some cut ∧ (pack .vpls cut.stored).bind (split .vpls ⟨25, 65, false⟩) = none := by
-  refine ⟨[0, 18] ++ List.replicate 18 7, ⟨[0, 18] ++ List.replicate 18 7, [0, 18] ++ List.replicate 17 7, []⟩, ?_, ?_⟩ <;> decide
+/-- **Whatever VPLS NLRI the decoder accepts (also one longer than the 17 bytes it reads), what the
+    object keeps is decoded again to the same kept bytes** (repaired by "fix: a VPLS NLRI keeps the
+    bytes it can read back": before it the kept length was the received one and
+    `00 12` + 17 bytes was refused). -/
+theorem vpls_kept_redecodable (c : Cfg) (b : Bytes) (cut : Cut) (h : split .vpls c b = some cut) :
+    split .vpls c cut.stored = some ⟨cut.stored, cut.stored, []⟩ := by
+  simp only [split] at h ⊢
+  unfold splitVpls at h
+  by_cases h2 : b.length < 2
+  · simp [h2] at h
+  · simp only [h2, if_false, vplsPayloadSize] at h
+    by_cases h17 : rd16 b < 17
+    · simp [h17] at h
+    · simp only [h17, if_false] at h
+      by_cases hl : b.length = rd16 b + 2
+      · simp only [hl, ne_eq, not_true_eq_false, if_false, Option.some.injEq] at h
+        subst h
+        have hx : ((b.drop 2).take 17).length = 17 := by
+          simp only [List.length_take, List.length_drop]; omega
+        have := split_vpls ((b.drop 2).take 17) hx
+        rw [hx] at this
+        exact this
+      · simp [hl] at h
 
 /-- **FINDING (RTC): a prefix shorter than 96 bits still takes 13 bytes** — a /64 RTC prefix
     (9 bytes on the wire) followed by another NLRI swallows 4 bytes of its neighbour. -/
@@ -215,11 +230,11 @@ theorem rtc_short_prefix_overconsumes :
     (split .rtc ⟨1, 132, false⟩ ([64, 0, 0, 253, 232, 0, 2, 253, 232] ++ [0, 0, 0, 0, 0])).map (·.consumed.length)
       = some 13 := by decide
 
-/-- **FINDING (BGP-LS VPN): the route distinguisher is cut out of what the object keeps**, so
-    `pack_nlri` cannot give the bytes back (and `index()` cannot tell two RDs apart). -/
-theorem bgpls_vpn_drops_rd :
-    ∃ b cut, split .type16Len16 ⟨16388, 72, false⟩ b = some cut ∧ cut.rest = [] ∧ pack .type16Len16 cut.stored ≠ some b := by
-  refine ⟨[0, 1, 0, 9, 1, 2, 3, 4, 5, 6, 7, 8, 9], ⟨[0, 1, 0, 9, 1, 2, 3, 4, 5, 6, 7, 8, 9], [0, 1, 0, 1, 9], []⟩, ?_, rfl, ?_⟩ <;> decide
+/-- BGP-LS-VPN (repaired by "fix: a BGP-LS-VPN NLRI keeps its route distinguisher"): a Node NLRI with
+    its RD is taken whole and given back whole. Before, the RD was cut out of what `pack_nlri` returned. -/
+theorem bgpls_vpn_keeps_rd :
+    (split .type16Len16 ⟨16388, 72, false⟩ [0, 1, 0, 9, 1, 2, 3, 4, 5, 6, 7, 8, 9]).bind (fun cut => pack .type16Len16 cut.stored)
+      = some [0, 1, 0, 9, 1, 2, 3, 4, 5, 6, 7, 8, 9] := by decide
 
 /-! ## The generated registries -/
 
@@ -278,6 +293,7 @@ example : (Nlri.bgpls 1 [9, 9, 9, 9, 9, 9, 9, 9, 5]).ok ⟨16388, 72, false⟩ :
 example : (Nlri.srPolicy (List.replicate 12 1)).ok ⟨1, 73, false⟩ := by simp [Nlri.ok, srPolicyBits, srPolicyV4Size]
 example : (Nlri.rtc 96 (List.replicate 12 1)).ok ⟨1, 132, false⟩ := by simp [Nlri.ok]
 example : Canonical .flow ⟨1, 133, false⟩ [3, 1, 8, 10] := by simp [Canonical]; decide
+example : (split .vpls ⟨25, 65, false⟩ ([0, 18] ++ List.replicate 18 7)).map (·.stored) = some ([0, 17] ++ List.replicate 17 7) := by decide
 example : (split .flow ⟨1, 133, false⟩ [3, 1, 8, 10]).map (·.stored) = some [1, 8, 10] := by decide
 example : kindOfFamily 25 70 = some .typeLen8 ∧ kindOfFamily 16388 72 = some .type16Len16 ∧ kindOfFamily 3 1 = none := by decide
 -- ordinary routes: 10.0.0.0/24 with path-id 1 and 2
